@@ -45,6 +45,7 @@ const FAULT_KINDS: &[&str] = &[
   "placeholder_names",
   "unchanged_documents_in_batch",
   "emptied_document",
+  "standard_library_module_edited",
 ];
 
 struct FaultPlan {
@@ -323,6 +324,26 @@ fn generate_synthetic(run_seed: u64, mode: Mode, mut w: Rng, f: Rng) -> Scenario
       }
       faults.fired.inc("dependency_broken_then_healed");
       ops.push(op);
+      continue;
+    }
+    if knobs.with_std && faults.on("standard_library_module_edited", 1, 12) {
+      // the tuple classes of the standard library are a module of the project like any other
+      // (every tuple expression depends on it without importing it): edit it, and undo the edit
+      let original = {
+        let mut heap = samlang_heap::Heap::new();
+        samlang_parser::builtin_std_raw_sources(&mut heap)
+          .into_iter()
+          .find(|(m, _)| m.pretty_print(&heap) == "std.tuples")
+          .map(|(_, t)| t)
+          .unwrap_or_default()
+      };
+      let edited = match w.below(3) {
+        0 => original.replace("method first()", "method firstRenamedInTheLibrary()"),
+        1 => original.replace("val e1: E1", "val renamedSecondElement: E1").replace("this.e1", "this.renamedSecondElement"),
+        _ => original.clone(),
+      };
+      faults.fired.inc("standard_library_module_edited");
+      ops.push(Op::Update(vec![(vec!["std".to_string(), "tuples".to_string()], edited)]));
       continue;
     }
     match w.weighted(&weights) {
